@@ -66,7 +66,10 @@ fn value(score: bool, pop: &PopRaw, i: usize) -> i64 {
 
 /// One tape-level case: real vs. model, plus oracles. `sample` is what `choose_multiple` yields on
 /// this stream (computed by the harness itself, independently of the model).
-fn one_case(d: &mut crate::driver::Driver, r: &mut Report, tag: &str, score: bool, sel: &Leaf, pop: &PopRaw, mut real_rng: SplitMix, count: bool) {
+fn one_case(d: &mut crate::driver::Driver, r: &mut Report, prop: &str, tag: &str, score: bool, sel: &Leaf, pop: &PopRaw, mut real_rng: SplitMix, count: bool) {
+    // which property's oracles may raise a violation (the Impl comparison always runs)
+    let c06 = prop.is_empty() || prop == "C06";
+    let c07 = prop.is_empty() || prop == "C07";
     let req = format!("sel {} {} | {}", if score { "score" } else { "error" }, sel.token(), pop_tokens(pop));
     let mut shadow = real_rng.clone();
     let mut second = real_rng.clone();
@@ -106,7 +109,7 @@ fn one_case(d: &mut crate::driver::Driver, r: &mut Report, tag: &str, score: boo
         return;
     }
     let ok: Option<usize> = real.strip_prefix("ok ").map(|x| x.parse().unwrap());
-    match sel {
+    if c06 { match sel {
         Leaf::Best | Leaf::Worst | Leaf::Random => {
             if (n == 0) != (real == "err EmptyPopulation") { viol(r, "EmptyPopulation must be reported exactly for the empty population"); }
         }
@@ -115,7 +118,8 @@ fn one_case(d: &mut crate::driver::Driver, r: &mut Report, tag: &str, score: boo
             if (n < *k) != (real == exp) { viol(r, "TournamentSize(k,n) must be reported exactly when k > n"); }
         }
         _ => {}
-    }
+    } }
+    if !c07 { return; }
     if let Some(w) = ok {
         let v = |i: usize| value(score, pop, i);
         match sel {
@@ -172,10 +176,11 @@ fn law_block(r: &mut Report, seed: u64, runs: u64) {
 pub fn run(cfg: &Cfg) -> Report {
     let n: u64 = if cfg.thorough { 3000000 } else { 60000 };
     let seed = cfg.seed;
+    let prop = cfg.prop.as_str();
     let mut rep = run_sharded(&cfg.driver, cfg.threads, n, || Report::new("sel", RULE), |d, r, i| {
         let mut g = SplitMix::derive(seed, i);
         let (score, sel, pop) = gen_case(&mut g);
-        one_case(d, r, &i.to_string(), score, &sel, &pop, SplitMix::derive(seed ^ 0xABCD, i), true);
+        one_case(d, r, prop, &i.to_string(), score, &sel, &pop, SplitMix::derive(seed ^ 0xABCD, i), true);
     });
     // exhaustive small scope: all populations of 1..=4 individuals with keys in {0,1,2}, every k, several streams
     let pops: Vec<Vec<i64>> = (1..=4usize).flat_map(|n| (0..3usize.pow(n as u32)).map(move |c| (0..n).map(|j| ((c / 3usize.pow(j as u32)) % 3) as i64).collect())).collect();
@@ -187,19 +192,19 @@ pub fn run(cfg: &Cfg) -> Report {
         for k in 1..=keys.len() {
             for s in 0..streams {
                 for score in [true, false] {
-                    one_case(d, r, &format!("ex{i}-{s}"), score, &Leaf::Tournament(k), &pop, SplitMix::derive(seed ^ 0xE0E0, i * 64 + s), s == 0);
+                    one_case(d, r, prop, &format!("ex{i}-{s}"), score, &Leaf::Tournament(k), &pop, SplitMix::derive(seed ^ 0xE0E0, i * 64 + s), s == 0);
                 }
             }
         }
         for sel in [Leaf::Best, Leaf::Worst] {
             for score in [true, false] {
-                one_case(d, r, &format!("ex{i}"), score, &sel, &pop, SplitMix::derive(seed ^ 0xE0E1, i), true);
+                one_case(d, r, prop, &format!("ex{i}"), score, &sel, &pop, SplitMix::derive(seed ^ 0xE0E1, i), true);
             }
         }
         r.hit("exhaustive population (<=4 individuals, keys in {0,1,2}) x every k");
     });
     rep.merge(ex);
-    law_block(&mut rep, seed, if cfg.thorough { 1000000 } else { 50000 });
+    if prop.is_empty() || prop == "C07" { law_block(&mut rep, seed, if cfg.thorough { 1000000 } else { 50000 }); }
     rep.notes.push("exhaustive scope: all 120 populations of 1..=4 individuals with keys in {0,1,2}, every tournament size, both polarities".into());
     rep
 }
